@@ -31,11 +31,6 @@ where
     fn read(&mut self, buf: &mut [u8]) -> io::Result<usize> {
         let mut src = self.fill_buf()?;
         let amt = src.read(buf)?;
-
-        if !src.is_empty() {
-            self.is_eol = false;
-        }
-
         self.consume(amt);
 
         Ok(amt)
@@ -55,10 +50,8 @@ where
         let buf = if self.is_eol && src.first().map(|&b| b != PREFIX).unwrap_or(true) {
             &[]
         } else if let Some(i) = src.as_bstr().find_byte(LINE_FEED) {
-            self.is_eol = true;
             &src[..=i]
         } else {
-            self.is_eol = false;
             src
         };
 
@@ -66,6 +59,17 @@ where
     }
 
     fn consume(&mut self, amt: usize) {
+        const LINE_FEED: u8 = b'\n';
+
+        // The next byte starts a line iff the last consumed byte ended one. A caller may consume
+        // less than what `fill_buf` returned.
+        if amt > 0
+            && let Ok(src) = self.inner.fill_buf()
+            && let Some(&b) = src.get(amt - 1)
+        {
+            self.is_eol = b == LINE_FEED;
+        }
+
         self.inner.consume(amt);
     }
 }
